@@ -126,6 +126,45 @@ func init() {
 			kinds = append(kinds, fk...)
 			pc := baseCase("c17-yaml-json", root, docs)
 			pc.Cfg.ExtraImports = true
+			if i%4 == 3 {
+				// --extra-imports with a --tags list that lacks `yaml`: the YAML methods are there all the same, and
+				// yaml.v3 then binds a key by the lower-cased FIELD name.  Inside the property's claim only where
+				// that is the property's own name (lower-case letters and digits); elsewhere the listed finding K37
+				pc.Cfg.Tags = core.Pick(c.R, [][]string{{"json"}, {"json", "mapstructure"}})
+				pc.Labels = append(pc.Labels, "no-yaml-tag")
+				if !allKeysLowerAlnum(root) {
+					pc.Labels = append(pc.Labels, "K37-region")
+				}
+			}
+			pcs = append(pcs, pc)
+			metas = append(metas, meta{kinds})
+		}
+		// … and a fixed family with lower-case one-word names under every tag list without `yaml`
+		for _, tags := range [][]string{{"json"}, {"json", "mapstructure"}, {"mapstructure", "json"}, {"json", "toml"}} {
+			sch := M{"type": "object", "required": []any{"name"}, "properties": M{
+				"name": M{"type": "string", "minLength": 3, "maxLength": 8}, "level": M{"type": "integer", "minimum": 1, "maximum": 10},
+				"mode": M{"type": "string", "enum": []any{"fast", "slow"}}, "code": M{"type": "string", "pattern": "^[0-9]+$"}, "limit": M{"type": "integer", "default": 7},
+				"items": M{"type": "array", "items": M{"type": "integer"}, "minItems": 1}}}
+			full := M{"name": "alice", "level": 3, "mode": "fast", "code": "123", "limit": 9, "items": []any{1}}
+			docs := []any{full, M{"name": "alice"}}
+			kinds := []string{"valid", "valid"}
+			for _, f := range []struct {
+				k string
+				v any
+				w string
+			}{{"name", nil, "required"}, {"name", "ab", "length"}, {"name", "abcdefghi", "length"}, {"level", 0, "bound"}, {"level", 11, "bound"}, {"mode", "warp", "enum"}, {"code", "abc", "pattern"}, {"items", []any{}, "length"}} {
+				d := sgen.DeepCopy(full).(M)
+				if f.v == nil {
+					delete(d, f.k)
+				} else {
+					d[f.k] = f.v
+				}
+				docs = append(docs, d)
+				kinds = append(kinds, f.w)
+			}
+			pc := baseCase("c17-yaml-json", sch, docs, "no-yaml-tag", strings.Join(tags, ","))
+			pc.Cfg.ExtraImports = true
+			pc.Cfg.Tags = tags
 			pcs = append(pcs, pc)
 			metas = append(metas, meta{kinds})
 		}
@@ -170,6 +209,10 @@ func init() {
 			if r.RunsJ == nil || r.RunsY == nil {
 				continue
 			}
+			if containsStr(r.Case.Labels, "K37-region") && knownListed(c, "K37-yaml-key-without-yaml-tag") {
+				c.Count("c17", "K37 region (no yaml tag and a property name that is not its own lower-cased field name; judged by the listed witness)")
+				continue
+			}
 			for i := range r.DocJSON {
 				kind := metas[ri].kinds[i]
 				j, y := r.RunsJ[i], r.RunsY[i]
@@ -210,6 +253,45 @@ func init() {
 		knownProgramFindings(c)
 		knownPairFindings(c)
 	})
+}
+
+// allKeysLowerAlnum: every property name of the schema is lower-case letters and digits, starting with a letter
+// (then the lower-cased Go field name is the name itself).
+func allKeysLowerAlnum(v any) bool {
+	switch t := v.(type) {
+	case sgen.M:
+		for _, kw := range []string{"properties", "$defs", "definitions"} {
+			if ps, ok := t[kw].(sgen.M); ok {
+				for k, x := range ps {
+					if kw == "properties" {
+						for i, ch := range k {
+							if !(ch >= 'a' && ch <= 'z') && !(i > 0 && ch >= '0' && ch <= '9') {
+								return false
+							}
+						}
+						if k == "" {
+							return false
+						}
+					}
+					if !allKeysLowerAlnum(x) {
+						return false
+					}
+				}
+			}
+		}
+		for k, x := range t {
+			if k != "properties" && k != "$defs" && k != "definitions" && !allKeysLowerAlnum(x) {
+				return false
+			}
+		}
+	case []any:
+		for _, x := range t {
+			if !allKeysLowerAlnum(x) {
+				return false
+			}
+		}
+	}
+	return true
 }
 
 func hasMixedEnum(v any) bool {
